@@ -56,7 +56,12 @@ def sandbox_side(src, inputs, calls, files=None, threaded=False):
             if isinstance(v, BaseException):
                 out['calls'].append(['raise', type(v).__name__])
             else:
-                out['calls'].append(['ok', repr(v)])
+                # the value as the grader sees it: through the returned proxy
+                try:
+                    seen = [repr(r), str(r), format(r)]
+                except BaseException as e2:
+                    seen = ['proxy raised ' + type(e2).__name__]
+                out['calls'].append(['ok', repr(v), seen])
         except BaseException as e:
             out['calls'].append(['escaped', type(e).__name__ + ': ' + str(e)[:80]])
     out['stdout'] = sb.raw_output
